@@ -289,6 +289,17 @@ impl Default for InjectorPP {
     }
 }
 
+impl Drop for InjectorPP {
+    fn drop(&mut self) {
+        // Restore in reverse order of installation. Each guard saved the bytes that were present
+        // when it was installed, so when a function has been faked more than once only unwinding
+        // newest-to-oldest puts the original code back.
+        while let Some(guard) = self.guards.pop() {
+            drop(guard);
+        }
+    }
+}
+
 /// A guard that prevents injectorpp affecting the test while alive.
 ///
 /// When this guard is held, no any injectorpp instance can be created.
